@@ -21,6 +21,7 @@ import Flowjaxv.Driver.BnafLd
 import Flowjaxv.Driver.ElboAd
 import Flowjaxv.Driver.Flows
 import Flowjaxv.Driver.TrainGen
+import Flowjaxv.Driver.CtorsGen
 /-!
 Model driver: `lake env lean --run Driver.lean < ops.txt`.  One op per line in, one line out
 (`ERR <msg>` when the model rejects the op).
@@ -67,6 +68,7 @@ def dispatch (line : String) : String :=
       | "bnaf" => bnaf args
       | "par" => par args
       | "ac" => ac args
+      | "gc" => gc args
       | "family" => family args
       | "familyv" => familyv args
       | "familys" => familys args
